@@ -24,7 +24,7 @@ from common import VERIF, qlit, zlit, dyadic, coqc_many, parse_evals, parse_zlis
 
 THEOREMS = ["C17_area_independent_of_vertex_order", "C17_centroid_independent_of_vertex_order",
             "C17_volume_independent_of_vertex_order", "C17_volume_is_two_pi_radius_area",
-            "C17_stored_vertices_clockwise", "C17_translation", "C17_triangle_exact", "C17_rectangle_exact",
+            "C17_stored_vertices_clockwise", "C17_translation", "C17_scaling", "C17_triangle_exact", "C17_rectangle_exact",
             "C17_true_area_and_centroid_partial", "C17_total_volume_is_sum",
             "C17_find_index_bisection_is_contract", "C17_select_picks_area_interval",
             "C17_select_off_by_one_refuted", "C17_emissivity_exact_for_constants",
@@ -123,7 +123,7 @@ def gen_polygon(rng, cls, exact):
     for _ in range(200):
         r0 = rng.choice([0.0, 0.0, num(0, 1), num(1, 4), num(1, 4), num(4, 9), 64.0 + num(0, 4)])
         z0 = rng.choice([0.0, num(-3, 3), num(-3, 3), -32.0 + num(0, 2)])
-        size = rng.choice([0.125, 0.5, 1.0, 1.0, 2.0])
+        size = rng.choice([0.125, 0.5, 1.0, 1.0, 2.0]) if cls != "bigstar" else rng.choice([1.0, 2.0, 4.0])
         if cls == "triangle":
             pts = [(r0 + size * num(0, 1), z0 + size * num(-1, 1)) for _ in range(3)]
         elif cls == "rectangle":
@@ -131,12 +131,14 @@ def gen_polygon(rng, cls, exact):
             if w <= 0 or h <= 0:
                 continue
             pts = [(r0, z0), (r0 + w, z0), (r0 + w, z0 + h), (r0, z0 + h)]
-        elif cls in ("convex", "star"):
-            n = rng.randint(4, 12) if cls == "star" else rng.randint(4, 9)
+        elif cls in ("convex", "star", "bigstar"):
+            n = rng.randint(4, 12) if cls == "star" else (rng.randint(4, 9) if cls == "convex" else rng.choice([16, 24, 32, 48]))
             ang = sorted(rng.uniform(0, 2 * math.pi) for _ in range(n))
             pts = []
             for k, a in enumerate(ang):
                 rad = 1.0 if cls == "convex" else rng.choice([0.3, 0.45, 1.0, 1.0, rng.uniform(0.3, 1.0)])
+                if cls == "bigstar":
+                    rad = rng.choice([0.6, 1.0, 1.0])
                 x, y = r0 + size * (1 + rad * math.cos(a)), z0 + size * rad * math.sin(a)
                 if exact:
                     x, y = round(x * 256) / 256, round(y * 256) / 256
@@ -533,6 +535,210 @@ def search_expectation(impl, pts, rng, grid_samples, calls):
     return fails
 
 
+def report(v):
+    """(stored, area, centroid or exception name, volume) of a live voxel"""
+    try:
+        c = v.cross_section_centroid
+        c = (float(c.x), float(c.y))
+    except ZeroDivisionError:
+        c = "ZeroDivisionError"
+    return ([(float(p.x), float(p.y)) for p in v.vertices], float(v.cross_sectional_area), c, float(v.volume))
+
+
+def search_forms_and_histories(impl, pts, rng):
+    """one polygon: every accepted argument form gives bit-identical results; the voxel is unaffected by later
+    changes of the caller's array / of the returned vertex list, by material / parent changes, by emissivity calls
+    (incl. grid_samples 0 and -1 in between) and repeated reads; a re-seeded call repeats bit for bit and equals a
+    fresh object"""
+    from raysect.core import Point2D, World
+    from raysect.optical.material import UnityVolumeEmitter
+    from raysect.core.math.function.float import Constant3D
+    fails = []
+    impl.crumb({"call": "AxisymmetricVoxel built from several argument forms, then a history of reads/mutations",
+                "polygon": pts})
+    v = impl.Voxel(pts)
+    r0 = report(v)
+    arr = np.array(pts, dtype=np.float64)
+    ro = arr.copy()
+    ro.setflags(write=False)
+    forms = {"list of lists": [list(q) for q in pts], "tuple of tuples": tuple(tuple(q) for q in pts),
+             "float64 array": arr.copy(), "Fortran-order array": np.asfortranarray(arr),
+             "non-contiguous view": np.array([[q[0], 9.0, q[1]] for q in pts])[:, ::2], "read-only array": ro,
+             "list of Point2D": [Point2D(*q) for q in pts],
+             "numpy scalars": [(np.float64(a), np.float64(b)) for a, b in pts]}
+    if all(abs(a) < 1e30 and abs(b) < 1e30 and float(np.float32(a)) == a and float(np.float32(b)) == b for a, b in pts):
+        forms["float32 array"] = np.array(pts, dtype=np.float32)
+    if all(float(a).is_integer() and float(b).is_integer() and abs(a) < 2 ** 53 and abs(b) < 2 ** 53 for a, b in pts):
+        forms["int64 array"] = np.array(pts, dtype=np.int64)
+        forms["list of int tuples"] = [(int(a), int(b)) for a, b in pts]
+    for name, form in forms.items():
+        try:
+            r = report(impl.Voxel(form))
+        except (TypeError, ValueError, RuntimeError) as e:
+            fails.append({"claim": "vertex list given as %s is accepted like a list of tuples (raised %s)"
+                                   % (name, type(e).__name__), "polygon": pts})
+            continue
+        if r != r0:
+            fails.append({"claim": "vertex list given as %s gives the same area, centroid and volume" % name,
+                          "polygon": pts, "got": r[1:], "want": r0[1:]})
+    for name, form, exc in (("generator", (q for q in pts), TypeError), ("Nx3 rows", [(a, b, 0.0) for a, b in pts], TypeError)):
+        try:
+            impl.Voxel(form)
+            fails.append({"claim": "vertex list given as %s is rejected with %s" % (name, exc.__name__), "polygon": pts})
+        except exc:
+            pass
+    # the voxel owns its data
+    a2 = arr.copy()
+    v2 = impl.Voxel(a2)
+    a2[:] = 0.0
+    vl = v2.vertices
+    vl.reverse()
+    vl.pop()
+    if report(v2) != r0:
+        fails.append({"claim": "a voxel is unaffected by later changes to the caller's array / returned vertex list",
+                      "polygon": pts, "got": report(v2)[1:], "want": r0[1:]})
+    # history on one live object
+    ntri = len(impl.triangles(r0[0]))
+    rseed = rng.randint(1, 2 ** 62)
+    steps = []
+
+    def f(x, y, z):
+        return 1.0 + x - 0.5 * z
+
+    def emis(vox, n=None):
+        impl.seed(rseed)
+        return float(vox.emissivity_from_function(f, n)) if n is not None else float(vox.emissivity_from_function(f))
+    e1 = emis(v, 5)
+    steps.append("emissivity n=5")
+    world = World()
+    for what in ("material", "parent", "n=0", "n=-1", "unparent", "np.int64 n", "default n", "float function"):
+        if what == "material":
+            v.material = UnityVolumeEmitter()
+        elif what == "parent":
+            v.parent = world
+        elif what == "unparent":
+            v.parent = None
+        elif what == "n=0":
+            try:
+                emis(v, 0)
+                fails.append({"claim": "grid_samples = 0 raises ZeroDivisionError (recorded behaviour)", "polygon": pts})
+            except ZeroDivisionError:
+                pass
+        elif what == "n=-1":
+            emis(v, -1)         # recorded behaviour: no samples, returns -0.0; must not disturb the object
+        elif what == "np.int64 n":
+            if emis(v, np.int64(5)) != e1:
+                fails.append({"claim": "grid_samples given as numpy integer behaves like the Python int", "polygon": pts})
+        elif what == "default n":
+            if emis(v) != emis(v, 10):
+                fails.append({"claim": "default grid_samples is 10", "polygon": pts, "raysect_seed": rseed})
+        else:
+            for const in (2.5, Constant3D(2.5), lambda x, y, z: 2.5):
+                got = float(v.emissivity_from_function(const, 3))
+                if abs(got - 2.5) > 1e-15:
+                    fails.append({"claim": "a constant emissivity given as %s is reproduced" % type(const).__name__,
+                                  "polygon": pts, "got": got})
+        steps.append(what)
+        if report(v) != r0:
+            fails.append({"claim": "area, centroid and volume of a live voxel do not change after: " + ", ".join(steps),
+                          "polygon": pts, "got": report(v)[1:], "want": r0[1:]})
+            break
+        e2 = emis(v, 5)
+        if e2 != e1 or e2 != emis(impl.Voxel(pts), 5):
+            fails.append({"claim": "a re-seeded emissivity call on a used voxel repeats bit for bit and equals a fresh voxel, "
+                                   "after: " + ", ".join(steps), "polygon": pts, "raysect_seed": rseed, "first": e1, "again": e2})
+            break
+    return fails
+
+
+def search_scale(impl, pts, k):
+    """scaling all coordinates by 2^k is exact in binary floating point: area * 4^k, centroid * 2^k, volume * 8^k"""
+    _, g = impl.geom(pts)
+    sc = [(math.ldexp(x, k), math.ldexp(y, k)) for x, y in pts]
+    _, h = impl.geom(sc)
+    want = {"area": math.ldexp(g["area"], 2 * k), "cx": math.ldexp(g["cx"], k), "cy": math.ldexp(g["cy"], k),
+            "volume": math.ldexp(g["volume"], 3 * k)}
+    for name, w in want.items():
+        if h[name] != w:
+            return [{"claim": "%s is exactly covariant under scaling the polygon by a power of two" % name, "polygon": pts,
+                     "scale_exponent": k, "got": h[name], "want": w}]
+    return []
+
+
+def search_grid_history(impl, gp, rng):
+    """one grid: container forms, order, multiplicity, set_active / parent histories, emissivities_from_function"""
+    fails = []
+    impl.crumb({"call": "ToroidalVoxelGrid(polygons): forms, order, histories, emissivities_from_function", "polygons": gp})
+    g = impl.Grid(gp)
+    vols0 = [float(vx.volume) for vx in g]
+    t0 = float(g.total_volume)
+    info = {"polygons": gp}
+    if not (len(g) == g.count == len(gp) == len(list(g))) or any(g[i] is not vx for i, vx in enumerate(g)):
+        fails.append(dict(info, claim="len / count / indexing / iteration of a grid agree"))
+    forms = {"tuple of tuples": tuple(tuple(tuple(q) for q in p) for p in gp)}
+    if gp and len({len(p) for p in gp}) == 1:
+        forms["3-D float array"] = np.array(gp, dtype=np.float64)
+    for name, form in forms.items():
+        if float(impl.Grid(form).total_volume) != t0:
+            fails.append(dict(info, claim="grid given as %s has the same total volume" % name))
+    perm = list(range(len(gp)))
+    rng.shuffle(perm)
+    gpm = impl.Grid([gp[i] for i in perm])
+    if [float(vx.volume) for vx in gpm] != [vols0[i] for i in perm] or \
+            abs(float(gpm.total_volume) - t0) > 1e-12 * (abs(t0) + 1e-300):
+        fails.append(dict(info, claim="total volume does not depend on the order of the cells", permutation=perm))
+    if gp:
+        g2 = impl.Grid(gp + gp)
+        if abs(float(g2.total_volume) - 2 * t0) > 1e-12 * abs(t0):
+            fails.append(dict(info, claim="listing every cell twice doubles the total volume"))
+    steps = []
+    ops = ["set_active(0)", "set_active(last)", "set_active('all')", "set_active(count)", "unparent_all_voxels",
+           "parent_all_voxels", "emissivities_from_function", "set_active(0)", "set_active('all')"]
+    rseed = rng.randint(1, 2 ** 62)
+
+    def f(x, y, z):
+        return 0.5 + x + 0.25 * z
+    for op in ops:
+        if not gp and op.startswith("set_active(") and op != "set_active('all')":
+            continue
+        if op == "set_active(0)":
+            g.set_active(0)
+        elif op == "set_active(last)":
+            g.set_active(len(gp) - 1)
+        elif op == "set_active('all')":
+            g.set_active("all")
+        elif op == "set_active(count)":
+            try:
+                g.set_active(len(gp))
+                fails.append(dict(info, claim="set_active(count) raises IndexError"))
+            except IndexError:
+                pass
+        elif op == "unparent_all_voxels":
+            g.unparent_all_voxels()
+        elif op == "parent_all_voxels":
+            g.parent_all_voxels()
+        else:
+            impl.seed(rseed)
+            e = [float(x) for x in g.emissivities_from_function(f, 4)]
+            impl.seed(rseed)
+            fresh = [float(impl.Voxel(p).emissivity_from_function(f, 4)) for p in gp]
+            impl.seed(rseed)
+            e10 = [float(x) for x in g.emissivities_from_function(f)]
+            impl.seed(rseed)
+            e10x = [float(x) for x in g.emissivities_from_function(f, 10)]
+            if e != fresh:
+                fails.append(dict(info, claim="emissivities_from_function equals the per-voxel emissivity_from_function calls "
+                                              "in order (same seed)", raysect_seed=rseed, got=e, want=fresh))
+            if e10 != e10x:
+                fails.append(dict(info, claim="emissivities_from_function default grid_samples is 10", raysect_seed=rseed))
+        steps.append(op)
+        if [float(vx.volume) for vx in g] != vols0 or float(g.total_volume) != t0:
+            fails.append(dict(info, claim="voxel volumes and total volume of a live grid do not change after: "
+                                          + ", ".join(steps), total=float(g.total_volume), want=t0))
+            break
+    return fails
+
+
 def search_grid(impl, polys):
     impl.crumb({"call": "ToroidalVoxelGrid(polygons).total_volume", "polygons": polys})
     try:
@@ -609,7 +815,7 @@ def run(ctx):
     quick = ctx.quick
 
     # ---- polygons -------------------------------------------------------------------------------
-    classes = ["triangle", "rectangle", "quad", "convex", "star", "quad", "axis", "star", "template"]
+    classes = ["triangle", "rectangle", "quad", "convex", "star", "quad", "axis", "star", "template", "bigstar"]
     n_base = 132 if quick else 3000
     n_allvar = 8 if quick else 150
     n_emis = 72 if quick else 1500
@@ -622,6 +828,16 @@ def run(ctx):
         cls = classes[i % len(classes)]
         exact = (i % 4 != 3)
         polys.append((cls, exact, gen_polygon(rng, cls, exact)))
+    # the same shapes at very small / very large magnitudes (power-of-two scaling is exact in binary floating point)
+    scale_exps = [-300, -120, -40, -8, 8, 40, 120, 300]
+    scaled_from = {}
+    base_exact = [p for p in polys if p[1] and p[0] not in ("corpus", "bigstar")]
+    for i in range(8 if quick else 160):
+        cls0, _, base = base_exact[(i * 7) % len(base_exact)]
+        k = scale_exps[i % len(scale_exps)]
+        sc = [(math.ldexp(x, k), math.ldexp(y, k)) for x, y in base]
+        polys.append(("scaled", True, sc))
+        scaled_from[id(sc)] = (base, k)
 
     cases, meta = [], []
     dist = {"class": {}, "n_vertices": {}, "orientation_given": {"clockwise": 0, "anticlockwise": 0},
@@ -679,14 +895,42 @@ def run(ctx):
     n_err = 0
     for bad in ([], [(1.0, 0.0)], [(1.0, 0.0), (2.0, 1.0)], [(-1.0, 0.0), (2.0, 1.0)],
                 [(1.0, 0.0), (2.0, 0.0), (-0.5, 1.0)], [(-1.0, 0.0), (2.0, 0.0), (2.0, 1.0), (1.0, 1.0)],
-                [(0.0, 0.0), (2.0, 0.0), (0.0, 1.0)]):
+                [(0.0, 0.0), (2.0, 0.0), (0.0, 1.0)], [(-0.0, 0.0), (2.0, 0.0), (0.0, 1.0)],
+                [(-5e-324, 0.0), (2.0, 0.0), (0.0, 1.0)], [(5e-324, 0.0), (2.0, 0.0), (0.0, 1.0)],
+                [(2.0, 0.0), (0.0, 1.0), (-2.0 ** -1022, 0.5)]):
         code = impl.err_code(bad)
         cases.append("check_err %s %s" % (ptlist(bad), zlit(code)))
         meta.append({"kind": "error", "polygon": bad, "impl_code": code})
         n_err += 1
 
+    # ---- zero-area vertex lists: area 0, centroid raises ZeroDivisionError, volume 0 -------------------------
+    n_degenerate = 0
+    for i in range(6 if quick else 60):
+        a = (dyadic(rng, 0, 8, 4), dyadic(rng, -4, 4, 4))
+        d = (dyadic(rng, 0.0625, 2, 4), dyadic(rng, -2, 2, 4))
+        if i % 2 == 0:
+            b = (a[0] + d[0], a[1] + d[1])
+            deg = [[a, a, b], [a, b, b], [b, a, a], [a, b, a]][(i // 2) % 4]
+        else:
+            m1, m2 = rng.choice([(1, 2), (1, 3), (2, 3), (2, 1)])
+            deg = [a, (a[0] + m1 * d[0], a[1] + m1 * d[1]), (a[0] + m2 * d[0], a[1] + m2 * d[1])]
+        deg = [(float(x), float(y)) for x, y in deg]
+        impl.crumb({"call": "AxisymmetricVoxel(zero-area polygon): area, centroid, volume", "polygon": deg})
+        try:
+            vdeg = impl.Voxel(deg)
+            rp = report(vdeg)
+        except (RuntimeError, ValueError, TypeError) as e:
+            impl_errors.append({"claim": "a zero-area triangle is accepted and reports area 0 and volume 0 (raised %s)"
+                                         % type(e).__name__, "polygon": deg})
+            continue
+        cases.append("check_degenerate %s %s %s %s %s" % (ptlist(deg), ptlist(rp[0]), qlit(rp[1]), qlit(rp[3]),
+                                                          "true" if rp[2] == "ZeroDivisionError" else "false"))
+        meta.append({"kind": "degenerate", "polygon": deg, "impl": rp})
+        n_degenerate += 1
+
     # ---- emissivity: every sample point and the mean ---------------------------------------------------
     emis_pool = [p for p in polys if p[1]] or polys
+    emis_pool = [p for p in emis_pool if p[0] == "scaled"][:(4 if quick else 60)] + [p for p in emis_pool if p[0] != "scaled"]
     tri_hist = {}
     n_draws = 0
     for i in range(n_emis):
@@ -715,7 +959,7 @@ def run(ctx):
     # ---- grids ----------------------------------------------------------------------------------------------
     grid_sizes = []
     grid_fails = []
-    exact_polys = [p[2] for p in polys if p[1]]
+    exact_polys = [p[2] for p in polys if p[1] and p[0] != "scaled"]
     exact_quads = [p[2] for p in polys if p[1] and p[0] == "quad"]
     for gi in range(n_grids):
         size = [0, 1, 2, 7, 25, 60, 3, 12][gi % 8] if quick else rng.choice([0, 1, 2, 5, 20, 100, 300])
@@ -776,6 +1020,37 @@ def run(ctx):
         n_search_geom += 1
         if len(search_fails) > 20:
             break
+    # scale covariance, argument forms, histories on live voxels and grids
+    n_scale = n_forms = n_grid_hist = 0
+    for cls, exact, pts in polys:
+        if cls == "scaled" and len(search_fails) <= 20:
+            base, k = scaled_from[id(pts)]
+            search_fails += search_scale(impl, base, k)
+            n_scale += 1
+    int_polys = []
+    for cls, exact, pts in polys:
+        if exact and cls in ("star", "template", "quad", "axis") and len(int_polys) < (3 if quick else 30):
+            ip = [(x * 256.0, y * 256.0) for x, y in pts]
+            if all(x.is_integer() and y.is_integer() and abs(x) < 2 ** 20 and abs(y) < 2 ** 20 for x, y in ip):
+                int_polys.append(ip)
+    forms_pool = int_polys + [p[2] for k, p in enumerate(polys) if k % (12 if quick else 6) == 0]
+    for pts in forms_pool:
+        if len(search_fails) > 20:
+            break
+        vs = variants(pts)
+        search_fails += search_forms_and_histories(impl, vs[rng.randrange(len(vs))], rng)
+        n_forms += 1
+    for gi in range(5 if quick else 40):
+        if len(search_fails) > 20:
+            break
+        size = [0, 1, 2, 6, 5][gi % 5]
+        pool = exact_quads if (gi % 5 == 4 and exact_quads) else exact_polys
+        gp = []
+        for _ in range(size):
+            vs = variants(pool[rng.randrange(len(pool))])
+            gp.append(vs[rng.randrange(len(vs))])
+        search_fails += search_grid_history(impl, gp, rng)
+        n_grid_hist += 1
     stat_pool = seeds[:5] + [p[2] for p in polys if p[0] in ("star", "quad", "template", "axis", "convex", "triangle")][:n_stat]
     n_search_stat = 0
     for pts in stat_pool:
@@ -838,7 +1113,9 @@ def run(ctx):
                              error_cases=n_err, search_geometry_polygons=n_search_geom,
                              search_sampling_polygons=n_search_stat,
                              search_samples_per_polygon=4000 if quick else 20000,
-                             expectation_tests_by_grid_samples=exp_counts, expectation_calls_per_test=n_calls),
+                             expectation_tests_by_grid_samples=exp_counts, expectation_calls_per_test=n_calls,
+                             scale_exponents=scale_exps, scale_covariance_tests=n_scale, zero_area_cases=n_degenerate,
+                             argument_form_and_history_polygons=n_forms, grid_history_grids=n_grid_hist),
         "tolerance": {"stored vertices, error kind, triangulation shape, triangle orientation, sum of triangle areas": "exact",
                       "area": "2^-48 * n * sum(|x_i y_j| + |x_j y_i|) / 2   (32 x first-order summation bound)",
                       "centroid": "2^-48 * n * (num_scale / (3|S|) + |c| * area_scale / |S|) + 2^-50 |c|",
